@@ -441,6 +441,9 @@ def merge_runs(data: ArrayLike, digits: Optional[Integer] = None):
     Parameters
     -----------
     data: (n,) float or int
+    digits : None or int
+      Floats are repeats if they are equal after rounding to this
+      many digits (`tol.merge` if None), integers if they are equal.
 
     Returns
     --------
@@ -457,25 +460,16 @@ def merge_runs(data: ArrayLike, digits: Optional[Integer] = None):
     In [2]: trimesh.grouping.merge_runs(a)
     Out[2]: array([-1,  0,  1,  2,  0,  3,  4,  5,  6,  7,  8,  9])
     """
-    if digits is None:
-        epsilon = tol.merge
-    else:
-        # not a numpy integer: it would refuse a negative exponent
-        epsilon = 10.0 ** (-int(digits))
-
     data = np.asanyarray(data)
     if len(data) == 0:
         return data
     mask = np.zeros(len(data), dtype=bool)
     mask[0] = True
-    if data.dtype.kind in "iub":
-        # integers are compared exactly whatever `digits` is: their
-        # difference can wrap around the range of the type and for
-        # `digits <= 0` values one apart would count as repeats
-        mask[1:] = data[1:] != data[:-1]
-    else:
-        delta = data[1:] - data[:-1]
-        mask[1:] = np.logical_or(delta > epsilon, delta < -epsilon)
+    # compare what `blocks` and `unique_float` compare: values rounded
+    # to the requested digits, not the difference to the neighbor which
+    # merges a slow ramp into its first value; integers pass unchanged
+    rounded = float_to_int(data, digits=digits)
+    mask[1:] = rounded[1:] != rounded[:-1]
 
     return data[mask]
 
